@@ -1,10 +1,20 @@
 #!/bin/bash
-# usage: tools/try_mutant.sh <patch.diff> <property> [tier]   -- applies a patch to /repo, runs the check, reverts
+# usage: tools/try_mutant.sh <patch.diff> <property> [tier] [extra check args]
+# Runs ./check for one property against a scratch worktree of /repo (HEAD + working-tree state is NOT
+# used: HEAD only) with the patch applied, using a scratch copy of /verif, so neither /repo nor
+# /verif/build is disturbed and several can run side by side.  Everything is removed afterwards.
+# (Equivalent to: git -C /repo apply <patch>; ./check ...; git -C /repo checkout -- .)
 set -u
-P=$1; PROP=$2; TIER=${3:-quick}
-git -C /repo apply "$P" || { echo "patch does not apply"; exit 3; }
-cd /verif && ./check $PROP $TIER 2>&1 | cut -c1-400 | tail -${LINES_OUT:-8}
+P=$(readlink -f "$1"); PROP=$2; TIER=${3:-quick}; shift; shift; shift || true
+T=$(mktemp -d /tmp/vpmut.XXXXXX)
+git -C /repo worktree add --detach "$T/repo" HEAD >/dev/null 2>&1 || { echo "worktree failed"; exit 3; }
+cleanup() { git -C /repo worktree remove --force "$T/repo" >/dev/null 2>&1; rm -rf "$T"; }
+trap cleanup EXIT
+for f in include/config.h include/qb/qbconfig.h; do [ -e /repo/$f ] && cp /repo/$f "$T/repo/$f"; done
+git -C "$T/repo" apply "$P" || { echo "patch does not apply"; exit 3; }
+mkdir "$T/verif" && (cd /verif && tar cf - --exclude=./build --exclude=./.git .) | tar xf - -C "$T/verif"
+cd "$T/verif" && REPO="$T/repo" ./check $PROP $TIER "$@" 2>&1 | sed "s#$T/verif#/verif#g" | cut -c1-600 | tail -${LINES_OUT:-12}
 rc=${PIPESTATUS[0]}
-git -C /repo checkout -- . 
+if [ -n "${KEEP_REPLAYS:-}" ]; then mkdir -p "$KEEP_REPLAYS"; cp -r "$T/verif/replays/$PROP/." "$KEEP_REPLAYS/" 2>/dev/null; fi
 echo "check exit code: $rc"
 exit $rc
